@@ -39,7 +39,15 @@ Sentence of the property → theorem (all for every chain length / nesting / inp
   `compose_eq_sequence_expr_partial`: Compose = Sequence for chains of such trees, from the executable check `chainOKb`
   alone.  `leavesOKb_sound`, `namesOK2b_sound`, `typesOKb_sound`, `chainWFb_sound`: the Boolean checks the driver
   reports imply the hypotheses.
-* object identities (in-place mutation) are in `Props/C14Tok.lean`. -/
+* sentence 3 beyond plain leaves in a Sequence: `types_persist_compose` (for `Compose` itself), `compose_order_general`
+  (any well-formed variables), `compose_order_expr` (expression trees).
+* `rawValue_spec`: `lena.flow._has_context` / `get_data_context` on raw values (data that looks like a pair).
+* object identities (in-place mutation) are in `Props/C14Tok.lean`.
+
+Theorems that are true by definition of the model (`compose_getter`, `combine_tuple`, `call_data`, `seqCall_data`,
+`call_frame`, `seqCall_frame`, `mkVariable_rejects`, `getAttr_*` except `getAttr_mkVariable`, `rawValue_spec`), the
+soundness lemmas of the Boolean checks, and the theorems about variants that are not in /repo (`fx = false`,
+`mkComposeN`) are listed as `AUX_THEOREMS` in the harness, not as obligations of the property. -/
 namespace Lena.C14
 open V
 
@@ -953,7 +961,8 @@ theorem getAttr_setAttr (v : Variable D) (a : String) (x : V) (ha : a.startsWith
     getAttr names (setAttr names v a x) a = .ok x := by
   simp [getAttr, setAttr, ha, getSlot_setSlot]
 
-/-- setting one attribute does not change another one -/
+/-- setting one attribute does not change another one (stated on slots: for two names outside the key alphabet of a
+case, which share one padded slot, it says nothing) -/
 theorem getAttr_setAttr_ne (v : Variable D) (a b : String) (x : V) (hab : key names b ≠ key names a) :
     getAttr names (setAttr names v a x) b = getAttr names v b := by
   simp [getAttr, setAttr, getSlot_setSlot, hab]
@@ -1548,6 +1557,7 @@ structure ArgsRes (names : List String) (T : List V) (tup : List D → D) (es : 
   data : ∀ x, chainData vs x = composeData tup es x
   tuple : ∀ x, vs.map (fun v => v.getter x) = combineData tup es x
   types : (vs.map Variable.varCtx).flatMap (hist names) = argsTypes names es
+  histEach : vs.map (fun v => hist names v.varCtx) = es.map (exprTypes names)
 
 theorem kwOKb_KwOK {T : List V} {kw : Slots} (hT : TypesOK names T) (h : kwOKb names T kw = true)
     (hname : getSlot kw (kName names) = none) : KwOK names T kw := by
@@ -1625,14 +1635,14 @@ theorem evalArgs_wf (hn2 : NamesOK2 names) {T : List V} (hT : TypesOK names T) (
     ∀ (es : List (Expr D)), argsOKb names T es = true →
       (∀ j, inT names (argsAllTypes names es) j = true → inT names T j = true) →
       ∃ vs, evalArgs names true nk tup es = .ok (vs.map some) ∧ ArgsRes names T tup es vs
-  | [], _, _ => ⟨[], by simp [evalArgs], ⟨rfl, by simp, by simp [chainData, composeData], by simp [combineData], by simp [argsTypes]⟩⟩
+  | [], _, _ => ⟨[], by simp [evalArgs], ⟨rfl, by simp, by simp [chainData, composeData], by simp [combineData], by simp [argsTypes], by simp⟩⟩
   | e :: r, h, hcov => by
     simp only [argsOKb, Bool.and_eq_true] at h
     obtain ⟨v, hv, hget, hwf, hh⟩ := evalExpr_wf hn2 hT nk tup e h.1 (by
       intro j hj; apply hcov; simp [argsAllTypes, inT_append, hj])
     obtain ⟨vs, hvs, hres⟩ := evalArgs_wf hn2 hT nk tup r h.2 (by
       intro j hj; apply hcov; simp [argsAllTypes, inT_append, hj])
-    refine ⟨v :: vs, by simp [evalArgs, hv, hvs], ⟨by simp [hres.len], ?_, ?_, ?_, ?_⟩⟩
+    refine ⟨v :: vs, by simp [evalArgs, hv, hvs], ⟨by simp [hres.len], ?_, ?_, ?_, ?_, by simp [hh, hres.histEach]⟩⟩
     · intro w hw
       simp only [List.mem_cons] at hw
       rcases hw with rfl | hw
@@ -1755,6 +1765,126 @@ theorem leavesOKb_sound {leaves : List (Leaf D)} (h : leavesOKb names leaves = t
     exact ⟨this.1.1.1.2, this.1.1.2, this.1.2⟩
   · intro l hl l' hl'
     exact (hall l hl).2 l' hl'
+
+end
+
+section
+variable {names : List String} {D : Type}
+
+/-! ### sentence 3 for `Compose` and for arbitrary well-formed variables (not only the Sequence of plain leaves) -/
+
+/-- **`compose` lists the types in application order, for any well-formed variables** (plain, `Compose`,
+`Combine`, typed or not): after the chain, if the value or a variable before the last one carries some history,
+`context.variable["compose"]` is the value's history followed by the histories of the variables -/
+theorem compose_order_general (hn : NamesOK names) (vars : List (Variable D)) (hne : vars ≠ []) (x : Value D)
+    (hpre : ∀ p, cvarOf names x = some (.dict p) → VarWF names p)
+    (hv : ∀ v ∈ vars, VarWF names v.varCtx)
+    (hh : preHist names (cvarOf names x) ++ (vars.map Variable.varCtx).dropLast.flatMap (hist names) ≠ [])
+    {d : D} {c : Slots} (h : seqCall names true vars x = .ok (d, c)) :
+    ∃ r, getSlot c (kVariable names) = some (.dict r) ∧
+      getSlot r (kCompose names) = some (.seq false (allTypes names (cvarOf names x) (vars.map Variable.varCtx))) := by
+  have hres := seqCall_result hn vars hne x hpre hv h
+  refine ⟨_, hres, ?_⟩
+  rw [fold_compose hn _ _ (by simpa using hne) (by rw [hist_preDict]; exact hh), hist_preDict]
+  rfl
+
+theorem argsTypes_eq_flatten (es : List (Expr D)) : argsTypes names es = (es.map (exprTypes names)).flatten := by
+  induction es with
+  | nil => rfl
+  | cons e r ih => simp [argsTypes, ih]
+
+/-- **… and for expression trees of any depth**: for a chain that passes `chainOKb`, after the Sequence of the
+constructed variables `compose` is the value's history followed by `argsTypes` (the types the expressions
+contribute, in application order) — whenever the value or an expression before the last one carries a type -/
+theorem compose_order_expr (nk : Bool) (tup : List D → D) (es : List (Expr D)) (x : Value D)
+    (h : chainOKb names (cvarOf names x) es = true)
+    (hh : preHist names (cvarOf names x) ++ argsTypes names es.dropLast ≠ []) :
+    ∃ vars, evalArgs names true nk tup es = .ok (vars.map some) ∧
+      ∀ d c, seqCall names true vars x = .ok (d, c) →
+        ∃ r, getSlot c (kVariable names) = some (.dict r) ∧
+          getSlot r (kCompose names) = some (.seq false (preHist names (cvarOf names x) ++ argsTypes names es)) := by
+  have h0 := h
+  simp only [chainOKb, Bool.and_eq_true, Bool.not_eq_true', List.isEmpty_eq_false_iff] at h
+  obtain ⟨⟨⟨⟨hnames, hne⟩, hargs⟩, htypes⟩, hpre⟩ := h
+  have hn2 := namesOK2b_sound hnames
+  have hT := typesOKb_sound htypes
+  obtain ⟨vs, hev, hres⟩ := evalArgs_wf hn2 hT nk tup es hargs (by
+    intro j hj; simp [inT_append, hj])
+  have hvne : vs ≠ [] := by
+    intro he; rw [he] at hres; have := hres.len; simp at this
+    exact hne (List.length_eq_zero_iff.1 this.symm)
+  refine ⟨vs, hev, fun d c hs => ?_⟩
+  have hdrop : (vs.map Variable.varCtx).dropLast.flatMap (hist names) = argsTypes names es.dropLast := by
+    have he : vs.dropLast.map (fun v => hist names v.varCtx) = es.dropLast.map (exprTypes names) := by
+      rw [List.map_dropLast, List.map_dropLast, hres.histEach]
+    rw [argsTypes_eq_flatten, ← he, ← List.map_dropLast, List.flatMap_def, List.map_map]
+    rfl
+  obtain ⟨r, hr1, hr2⟩ := compose_order_general hn2.base vs hvne x
+    (by
+      intro p hp
+      rw [hp] at hpre
+      simp only [Bool.and_eq_true] at hpre
+      exact varWFb_sound hpre.1)
+    (fun v hv => (hres.wf v hv).wf) (by rw [hdrop]; exact hh) hs
+  refine ⟨r, hr1, ?_⟩
+  rw [hr2]
+  simp only [allTypes, hres.types]
+
+/-- **sentence 3 for `Compose` itself**: for plain variables with pairwise distinct non-empty types (`LeavesOK`)
+inside the hypotheses of `compose_eq_sequence_partial`, `Compose(v₁,…,vₙ)` is constructed, and after applying it
+`context.variable[typeᵢ] == {"name": nameᵢ, **kwᵢ}` for every `i`, and `compose` is the value's history followed by
+`[type₁, …, typeₙ]` (if the value carried a history or `n ≥ 2`) -/
+theorem types_persist_compose (hn : NamesOK names) (leaves : List (Leaf D)) (hne : leaves ≠ [])
+    (hl : LeavesOK names leaves) (x : Value D)
+    (hc : ChainWF names (cvarOf names x) ((leaves.map (Leaf.var names)).map Variable.varCtx)) :
+    ∃ c, mkCompose names true ((leaves.map (Leaf.var names)).map some) (emptyD names.length) = .ok c ∧
+      ∀ d ctx, call names true c x = .ok (d, ctx) →
+        ∃ r, getSlot ctx (kVariable names) = some (.dict r) ∧
+          (∀ l ∈ leaves, getSlot r (key names l.ty) = some (.dict (l.attrs names))) ∧
+          ((preHist names (cvarOf names x) ≠ [] ∨ 2 ≤ leaves.length) →
+            getSlot r (kCompose names) =
+              some (.seq false (preHist names (cvarOf names x) ++ leaves.map (fun l => V.str l.ty)))) := by
+  obtain ⟨c, hmk, heq⟩ := compose_eq_sequence_partial hn (leaves.map (Leaf.var names)) (by simpa using hne) x hc
+  refine ⟨c, hmk, fun d ctx hcall => ?_⟩
+  rw [heq] at hcall
+  have hpre : ∀ p, cvarOf names x = some (.dict p) → VarWF names p := fun p hp => (hc.pre p hp).1
+  obtain ⟨r, hr, hall⟩ := types_persist hn leaves hne hl x hpre hcall
+  refine ⟨r, hr, hall, fun hlen => ?_⟩
+  obtain ⟨r2, hr2, hco⟩ := compose_order hn leaves hne hl x hpre hlen hcall
+  rw [hr] at hr2
+  cases hr2
+  exact hco
+
+end
+
+/-- the hypotheses of `types_persist_compose` hold for the two plain variables `exL1`, `exL2` on `exX` -/
+example : ChainWF exNames (cvarOf exNames exX) (([exL1, exL2].map (Leaf.var exNames)).map Variable.varCtx) :=
+  chainWFb_sound (by decide)
+
+/-- the hypotheses of `compose_order_expr` hold for the depth-3 chain of `compose_eq_sequence_expr_partial`'s example -/
+example : preHist exNames2 (cvarOf exNames2 exX2) ++
+    argsTypes exNames2 [exLeaf "u" "tb" (· + 2), exDeep, exLeaf "s" "ta" (3 * ·)].dropLast ≠ [] := by decide
+
+
+section
+variable {names : List String}
+
+/-- `rawValue` is `get_data_context` with `_has_context` as its test: a raw value is read as a `(data, context)`
+pair exactly when it is a tuple of length 2 whose second element is a dictionary -/
+theorem rawValue_spec (r : Raw) :
+    (hasContext r = true → ∃ d c, r = .tuple [d, .dict c] ∧ rawValue r = .pair d c) ∧
+    (hasContext r = false → rawValue r = .bare r) := by
+  constructor
+  · intro h
+    unfold hasContext at h
+    split at h
+    · rename_i d c; exact ⟨d, c, rfl, rfl⟩
+    · cases h
+  · intro h
+    unfold rawValue
+    split
+    · simp [hasContext] at h
+    · rfl
 
 end
 
